@@ -1019,6 +1019,8 @@ def gen_roots(ctx, env):
                                  'schema was generated from', {'tag': ftag, 'name': kn}, sorted(hit), got)
                 region = ('no-roots-defined' if not roots else 'all-roots' if hit == want_roots else
                           'some-roots' if hit else 'no-root')
+                if region == 'no-root' and rnd and not ctx.thorough:
+                    continue            # quick: the (large) matches-no-root stratum once, the others every round
                 variants = ['good'] if (rnd + pi) % 3 else ['good', 'signed-by-other']
                 own = env.signer(kr, rname)          # (an RSA signer costs a key import: built once)
                 for variant in variants:
